@@ -592,11 +592,48 @@ def rule_crc_routing(report, prog, rule='C14-R7'):
                  'between are returned without any CRC verification' % (norm(off[0].test) if off else '?', norm(route[0].test) if route else '?'))
     # the routed branch must not be shadowed by an enclosing condition other than "type A target without DEP"
     # rcs380: the same branch sets check_crc = 0 and calls the software check
+    # rcs380: send_cmd_recv_rsp folded (checker's own evaluator, chipset modelled) for every SEL_RES of a 106A target and for targets
+    # of the other technologies: the chip's CRC check is switched off exactly when the response goes through the software CRC_A check,
+    # and that is exactly for Type 2 Tags (SEL_RES bits 6 and 7 clear)
+    from ..q import fold_block, FoldObject, NotConst
     r3 = prog.func('nfc.clf.rcs380.Device.send_cmd_recv_rsp')
-    br = [i for i in ast.walk(r3.node) if isinstance(i, ast.If) and any("in_set_protocol_settings['check_crc'] = 0" == norm(x) for x in i.body)]
-    okk = len(br) == 1 and any(isinstance(x, ast.Return) and '_tt2_send_cmd_recv_rsp(' in norm(x) for x in br[0].body)
-    report.check(okk, rule, key(r3.qname, 'the branch that disables the chip CRC check returns through the software CRC_A check'), r3.loc(),
-                 'rcs380 disables check_crc without routing the response through _tt2_send_cmd_recv_rsp')
+    body3 = [st for st in r3.node.body if not (isinstance(st, ast.Expr) and isinstance(st.value, ast.Constant))]
+    gap, wrong = [], []
+
+    class Tgt(FoldObject):
+        pass
+    cases = [('106A', bytearray([b])) for b in range(256)] + [('106A', None), ('106A', bytearray()), ('212F', None), ('424F', None), ('106B', None)]
+    for brty, sel in cases:
+        protocol = []
+        t = Tgt()
+        t.brty = t.brty_send = t.brty_recv = brty
+        t.sel_res = sel
+        t.sens_res, t.sensf_res, t.sensb_res, t.atr_res, t.rid_res = bytearray(2), None, None, None, None
+        env = {'target': t, 'data': bytearray(b'\x30\x04'), 'timeout': 0.1, 'self.chipset.in_set_protocol_defaults': bytearray(b'\x00\x18'),
+               '__calls__': {'self.chipset.in_set_rf': lambda *a, **k: None,
+                             'self.chipset.in_set_protocol': lambda *a, **k: protocol.append(dict(k)),
+                             'self._tt2_send_cmd_recv_rsp': lambda *a: 'software check', 'self.chipset.in_comm_rf': lambda *a: 'chip check'}}
+        try:
+            r = fold_block(body3, env)
+        except (NotConst, IndexError, TypeError, ValueError, AttributeError) as e:
+            r = ('error', '%s: %s' % (type(e).__name__, e))
+        what = '%s target, SEL_RES %s' % (brty, ('%02Xh' % sel[0]) if sel else sel)
+        if r[0] != 'return' or r[1] not in ('software check', 'chip check'):
+            wrong.append('%s: %s %s' % (what, r[0], str(r[1])[:50]))
+            continue
+        crc_off = any(p_.get('check_crc') == 0 for p_ in protocol)
+        if crc_off != (r[1] == 'software check'):
+            gap.append('%s: chip CRC check %s, response through the %s' % (what, 'off' if crc_off else 'on', r[1]))
+        t2 = brty == '106A' and bool(sel) and sel[0] & 0x60 == 0
+        if (r[1] == 'software check') != t2:
+            wrong.append('%s %s' % (what, 'takes the Type 2 path' if r[1] == 'software check' else 'does not take the Type 2 path'))
+    report.check(not gap and not any('error' in w_ or 'notconst' in w_ for w_ in wrong), rule,
+                 key(r3.qname, 'the branch that disables the chip CRC check returns through the software CRC_A check'), r3.loc(),
+                 'rcs380 disables check_crc without routing the response through _tt2_send_cmd_recv_rsp: %s' % '; '.join((gap + wrong)[:2]))
+    report.check(not wrong, rule, key(r3.qname, 'only Type 2 Tags (SEL_RES bits 6,7 clear) take the software-CRC path'), r3.loc(),
+                 '%s: %s: frames of an ISO-DEP / NFC-DEP capable target are returned without CRC verification when they are 1 or 2 byte long'
+                 % (r3.qname, '; '.join(wrong[:3])))
+    br = []
     # the software-CRC path hands out 1 and 2 byte frames unverified (the 4 bit ACK / NAK of Type 2 Tags): only a Type 2 Tag may
     # take it.  Both routing conditions are folded for every SEL_RES value: true exactly when bits 6 and 7 (ISO 14443-4 / NFC-DEP
     # capability) are clear, so ISO-DEP and NFC-DEP frames are always CRC-checked by the chip.
